@@ -75,6 +75,12 @@ type inputInfo struct {
 	InstrSplit bool // a paragraph with more than one w:instrText (an instruction split over runs)
 	FldChars   int
 	Distinct   int // distinct attribute values of the main part (all elements)
+	// producer shapes of the main part (math.go, tables.go)
+	Formulas        int // oMath / oMathPara elements of the math namespace directly inside a w:p
+	VMerge          int // w:vMerge elements
+	OddSpan         int // w:gridSpan whose value is not a positive decimal number
+	OddSpanOnVMerge int // ... in a w:tcPr that also carries w:vMerge
+	TblBeforeP      int // w:tc in which a w:tbl child is followed by a w:p child
 	// the optional parts Open only stores (optvocab.go: OptVocab.Parts), as they are in the input
 	Opt map[string]*optInfo
 }
@@ -227,8 +233,9 @@ func analyse(b []byte) *inputInfo {
 	}
 	dec := xml.NewDecoder(bytes.NewReader(main))
 	type frame struct {
-		local string
-		tbl   *tblInfo // the table this tbl / tblGrid / tr frame belongs to
+		local                   string
+		tbl                     *tblInfo // the table this tbl / tblGrid / tr frame belongs to
+		sawTbl, oddSpan, vMerge bool     // tc: a w:tbl child was seen; tcPr: what it carries
 	}
 	var stack []frame
 	values := map[string]struct{}{}
@@ -285,7 +292,34 @@ func analyse(b []byte) *inputInfo {
 			}
 			f := frame{local: t.Name.Local}
 			if len(stack) > 0 {
-				p := stack[len(stack)-1]
+				p := &stack[len(stack)-1]
+				switch {
+				case (t.Name.Local == "oMath" || t.Name.Local == "oMathPara") && t.Name.Space == nsM && p.local == "p":
+					in.Formulas++
+				case t.Name.Local == "tbl" && p.local == "tc":
+					p.sawTbl = true
+				case t.Name.Local == "p" && p.local == "tc" && p.sawTbl:
+					in.TblBeforeP++
+					p.sawTbl = false
+				case t.Name.Local == "vMerge" && p.local == "tcPr":
+					in.VMerge++
+					if p.vMerge = true; p.oddSpan {
+						in.OddSpanOnVMerge++
+					}
+				case t.Name.Local == "gridSpan" && p.local == "tcPr":
+					v := ""
+					for _, a := range t.Attr {
+						if a.Name.Local == "val" {
+							v = a.Value
+						}
+					}
+					if n, err := strconv.Atoi(v); err != nil || n < 1 {
+						in.OddSpan++
+						if p.oddSpan = true; p.vMerge {
+							in.OddSpanOnVMerge++
+						}
+					}
+				}
 				switch {
 				case t.Name.Local == "tblGrid" && p.local == "tbl":
 					p.tbl.HasGrid = true
@@ -327,6 +361,7 @@ func analyse(b []byte) *inputInfo {
 // ---------------------------------------------------------------------------------------------
 
 const (
+	maxTwinBytes    = 64 << 10 // a package is taken through the follow-up twice (Case.Twin) when it is at most this large
 	maxTablesEdited = 6
 	maxCellsVisited = 3000
 )
@@ -412,6 +447,7 @@ type judge struct {
 	calls   int
 	openErr error
 	follow  []string // the drawn follow-up script of the case
+	tedits  []TEdit  // the drawn script of table edits of the case
 }
 
 // call runs one library call under recover; a panic is a T2 failure of the given clause.
@@ -454,10 +490,10 @@ func judgePre(res *kit.Result, pre []*XMLPart) {
 }
 
 // judgeOpen evaluates T1-T3 on one byte string. via: "mem" (OpenFromMemory) or "file" (Open(path)).
-func judgeOpen(res *kit.Result, b []byte, via string, follow []string) *inputInfo {
+func judgeOpen(res *kit.Result, b []byte, via string, follow []string, tedits []TEdit, twin bool) *inputInfo {
 	document.VerifResetGlobals()
 	in := analyse(b)
-	j := &judge{res: res, in: in, follow: follow}
+	j := &judge{res: res, in: in, follow: follow, tedits: tedits}
 
 	var doc *document.Document
 	var err error
@@ -493,7 +529,21 @@ func judgeOpen(res *kit.Result, b []byte, via string, follow []string) *inputInf
 		return in
 	}
 	res.Label("open:ok")
+	var doc2 *document.Document
+	if twin && len(b) <= maxTwinBytes {
+		// a second document from the same bytes, opened before the first one is touched
+		var err2 error
+		res.Eval("C06.T2.open")
+		j.call("C06.T2.open", "OpenFromMemory (second document from the same bytes)", "", func() { doc2, err2 = document.OpenFromMemory(readCloser{bytes.NewReader(b)}) })
+		if err2 != nil || j.panics > 0 {
+			doc2 = nil
+		}
+	}
 	j.followUp(doc)
+	if doc2 != nil && j.panics == 0 {
+		res.Label("twin:second-document-after-the-first")
+		j.followUp(doc2)
+	}
 	return in
 }
 
@@ -526,6 +576,12 @@ func (j *judge) followUp(doc *document.Document) {
 	if len(tables) > 0 {
 		res.Label("opened-tables")
 	}
+	for _, e := range doc.Body.Elements {
+		if _, ok := e.(*document.MathParagraph); ok {
+			res.Label("opened-formula-paragraph") // the reader kept the inside of a formula as the text of the input
+			break
+		}
+	}
 
 	// re-save of the document exactly as opened (before any edit changes relationship counts, ids, tables)
 	res.Eval(S)
@@ -536,6 +592,8 @@ func (j *judge) followUp(doc *document.Document) {
 	}
 
 	// per opened table: accessors, then the edit script; only the first few and the last table of huge documents
+	var copies []*document.Table // edited copies of the opened tables (sweep); they join the document below
+	sweepBudget := sweepVariants
 	sel := tables
 	if len(sel) > maxTablesEdited {
 		sel = append(append([]*document.Table{}, tables[:maxTablesEdited-1]...), tables[len(tables)-1])
@@ -646,6 +704,32 @@ func (j *judge) followUp(doc *document.Document) {
 				ok = j.call(E, who(name), tblState(t), func() { f() })
 			}
 		}
+		// every single edit of the repertoire at every position, each on a copy of the table as it was opened (tables.go)
+		if cps, sok := j.sweep(t, ti, &sweepBudget); true {
+			copies = append(copies, cps...)
+			ok = ok && sok
+		}
+		// the case's drawn script, on the opened table itself
+		if len(j.tedits) > 0 && ok {
+			res.Label("tedits:drawn")
+			for i, e := range j.tedits {
+				e := e
+				if e.Op == "Save" {
+					res.Eval(S)
+					var out []byte
+					var err error
+					if ok = j.call(S, fmt.Sprintf("ToBytes after call %d of the drawn table script %v on opened table #%d", i, j.tedits, ti), tblState(t), func() { out, err = doc.ToBytes() }); ok && err == nil {
+						j.checkSavedMain(out, 0)
+					}
+				} else {
+					res.Label("tedit:" + e.Op)
+					ed(fmt.Sprintf("%s (call %d of the drawn table script %v)", e, i+1, j.tedits), func() error { j.applyTEdit(doc, t, e); return nil })
+				}
+				if !ok {
+					break
+				}
+			}
+		}
 		// row edits and merges first, column edits last: a panic ends the script of this table (its state is undefined)
 		ed("SetCellText", func() error { return t.SetCellText(0, 0, "x") })
 		ed("AppendRow", func() error { return t.AppendRow([]string{"v"}) })
@@ -671,6 +755,37 @@ func (j *judge) followUp(doc *document.Document) {
 		}
 	}
 
+	// the edited copies join the document, are saved with it, and leave it again
+	if len(copies) > sweepSaved {
+		// an evenly spread selection joins the document (what is saved is bounded; every copy was edited without a panic)
+		var sel []*document.Table
+		for i := 0; i < sweepSaved; i++ {
+			sel = append(sel, copies[i*len(copies)/sweepSaved])
+		}
+		res.Count("sweep_copies_not_saved", len(copies)-len(sel))
+		copies = sel
+	}
+	if len(copies) > 0 {
+		n0 := len(doc.Body.Elements)
+		added := j.call(E, fmt.Sprintf("Body.AddElement of %d edited CopyTable() copies", len(copies)), "", func() {
+			for _, cp := range copies {
+				doc.Body.AddElement(cp)
+			}
+		})
+		if added {
+			res.Eval(S)
+			var out []byte
+			var err error
+			if j.call(S, fmt.Sprintf("ToBytes after single edits on %d CopyTable() copies appended to the document", len(copies)), "", func() { out, err = doc.ToBytes() }) && err == nil {
+				j.checkSavedMain(out, sweepWFBytes)
+			}
+			j.call(E, fmt.Sprintf("RemoveElementAt of the %d appended copies", len(copies)), "", func() {
+				for len(doc.Body.Elements) > n0 && doc.RemoveElementAt(len(doc.Body.Elements)-1) {
+				}
+			})
+		}
+	}
+
 	// the calls that read / extend the optional parts Open only stored: first in the order the case drew, then all of them
 	res.Eval(E)
 	if len(j.follow) > 0 {
@@ -684,9 +799,11 @@ func (j *judge) followUp(doc *document.Document) {
 	j.call(E, "AddHeadingParagraph", "", func() { doc.AddHeadingParagraph("added heading", 1) })
 	j.call(E, "AddTable", "", func() { doc.AddTable(&document.TableConfig{Rows: 2, Cols: 2, Width: 4000}) })
 	j.call(E, "AddHeader", "", func() { doc.AddHeader(document.HeaderFooterTypeDefault, "header") })
+	j.call(E, "AddFooter", "", func() { doc.AddFooter(document.HeaderFooterTypeDefault, "footer") })
 	j.call(E, "AddImageFromData", "", func() { doc.AddImageFromData(tinyPNG, "added.png", document.ImageFormatPNG, 3, 2, nil) })
 	j.call(E, "SetPageMargins", "", func() { doc.SetPageMargins(20, 20, 20, 20) })
 	j.call(E, "AddBulletList", "", func() { doc.AddBulletList("item", 0, document.BulletTypeDot) })
+	j.call(E, "AddMathFormula", "", func() { doc.AddMathFormula("<m:r><m:t>x</m:t></m:r>", len(tables)%2 == 0) })
 	// rebuilds an opened table-of-contents content control (uses what Open restored from its tag / field instruction)
 	j.call(E, "UpdateTOC", "", func() { doc.UpdateTOC() })
 	j.call(E, "RemoveParagraphAt", "", func() { doc.RemoveParagraphAt(0) })
@@ -713,6 +830,38 @@ func (j *judge) followUp(doc *document.Document) {
 	j.checkSaved(out)
 }
 
+// checkSavedMain evaluates the main-part clauses of T3 only (intermediate saves whose optional parts and package-level parts
+// are the ones the next full check sees again).
+// wfLimit > 0: a main part larger than that is not parsed (counted): the save of the swept copies is judged for panics on
+// every document, for well-formedness on the small ones (the checker makes three passes over the text).
+func (j *judge) checkSavedMain(out []byte, wfLimit int) {
+	res := j.res
+	res.Eval("C06.T3.pkg")
+	pkg, err := opc.Read(out)
+	if err != nil {
+		res.Fail("C06.T3.pkg", "re-saved bytes are not a readable zip: %v", err)
+		return
+	}
+	if len(pkg.Dups) > 0 {
+		res.Fail("C06.T3.pkg", "re-saved package has duplicate entries %v", pkg.Dups)
+	}
+	res.Eval("C06.T3.main-wf")
+	main, ok := pkg.Parts[nMain]
+	if !ok {
+		res.Fail("C06.T3.main-wf", "re-saved package has no word/document.xml")
+		return
+	}
+	if wfLimit > 0 && len(main) > wfLimit {
+		res.Count("sweep_save_wf_skipped_large", 1)
+		return
+	}
+	if err := xmlwf.Check(main); err != nil {
+		res.Fail("C06.T3.main-wf", "regenerated word/document.xml is not well-formed: %v", err)
+	} else if err := wfSupplement(main); err != nil {
+		res.Fail("C06.T3.main-wf", "regenerated word/document.xml is not well-formed: %v", err)
+	}
+}
+
 // checkSaved evaluates T3 on the re-saved bytes.
 func (j *judge) checkSaved(out []byte) {
 	res := j.res
@@ -732,6 +881,8 @@ func (j *judge) checkSaved(out []byte) {
 		return
 	}
 	if err := xmlwf.Check(main); err != nil {
+		res.Fail("C06.T3.main-wf", "regenerated word/document.xml is not well-formed: %v", err)
+	} else if err := wfSupplement(main); err != nil {
 		res.Fail("C06.T3.main-wf", "regenerated word/document.xml is not well-formed: %v", err)
 	}
 	j.checkOptParts(pkg)
